@@ -109,16 +109,17 @@ PROPS["C01"] = {
         "GstProofs.C01.solution", "GstProofs.C01.unique", "GstProofs.C01.dual", "GstProofs.C01.variance",
         "GstProofs.C01.lhs_blocks", "GstProofs.C01.compress", "GstProofs.C01.compress_rhs", "GstProofs.C01.certificate",
         "GstProofs.Krig.lhsFull_symm", "GstProofs.Krig.kept_spec",
+        "GstProofs.C01.block_weights", "GstProofs.C01.block_estimate",
     ],
     "harnesses": ["vh_c01"],
     "level": "proof",
     "technique": "Lean 4: kriging system model (flags, block assembly, heterotopic compression) with index theorems for all sizes + Mathlib matrix theorems (block equations, uniqueness, dual=primal, variance formulas) for any field and dimension; per-configuration certificate chain checked in exact rational arithmetic on the library's exported LHS/RHS/weights/dual vector/outputs against an independent covariance oracle",
-    "level_text": "The algebraic clauses are theorems for every dimension; the assembly/compression index rules are theorems of the model; the library is tied to the model stage by stage on generated configurations (1-3D, 1-3 variables, heterotopic, measurement error, known mean / drift order 0-2 / external drift, nested anisotropic models, unique and moving neighbourhoods): LHS and RHS to 2^-40, solves by residual 2^-30, estimate/stdev/varZ from the stage formulas.",
-    "level_note": "Trusted: Lean kernel + 3 standard axioms; covariance oracle (plain API of the same library); Eigen inversion certified only; block kriging, matLC, Bayesian, DGM, image and factor-kriging branches are outside the model; exactly singular systems are excluded (exact rank test) and counted.",
-    "rule": "random configurations: ndim 1-3, nvar 1-3, 4-14 samples at distinct dyadic locations, undefined-value patterns p in {0,.2,.45}, 1-3 nested structures among nugget/spherical/exponential/gaussian/cubic/matern with anisotropy+rotation and random PSD sill matrices, known mean or IRF order 0-2 with optional external drift, optional measurement-error column (undefined/zero/positive), unique or moving neighbourhood, 3 targets each. distinct = distinct request line; trivial = none",
+    "level_text": "The algebraic clauses are theorems for every dimension; the assembly/compression index rules are theorems of the model; the library is tied to the model stage by stage on generated configurations (1-3D, 1-3 variables, heterotopic, measurement error, known mean / drift order 0-2 / external drift, nested anisotropic models, unique and moving neighbourhoods, point targets and blocks discretised by 1-3 points per axis): LHS and RHS to 2^-40, solves by residual 2^-30, estimate/stdev/varZ from the stage formulas.",
+    "level_note": "Trusted: Lean kernel + 3 standard axioms; covariance oracle (plain API of the same library); Eigen inversion certified only (residual tolerance 2^-30, scaled by the exact condition number when that fails); blocks of rotated grids, matLC, Bayesian, DGM, image and factor-kriging branches are outside the model; exactly singular systems are excluded (exact rank test) and counted.",
+    "rule": "random configurations: ndim 1-3, nvar 1-3, 4-14 samples at distinct dyadic locations, undefined-value patterns p in {0,.2,.45}, 1-3 nested structures among nugget/spherical/exponential/gaussian/cubic/matern with anisotropy+rotation and random PSD sill matrices, known mean or IRF order 0-2 with optional external drift, optional measurement-error column (undefined/zero/positive), unique or moving neighbourhood, 3 targets each (one configuration out of four: block kriging on grid cells, right-hand side and target variance averaged over the library's two discretisations through the plain single-pair covariance). distinct = distinct request line; trivial = none",
     "trivial": lambda line: False,
     "trusted_base": _KRIG_TB,
-    "uncovered": ["block kriging / discretisation", "matLC, collocated, Bayesian, DGM, image neighbourhood, factor kriging", "round-off bound as a function of conditioning (a fixed backward-error tolerance is used)"],
+    "uncovered": ["per-cell block extensions, blocks of rotated grids", "matLC, collocated, Bayesian, DGM, image neighbourhood, factor kriging", "systems whose exact condition number exceeds 2^36 are skipped and counted"],
     "assumptions": ["systems whose exact rational rank is deficient are skipped", "targets for which the library reports failure (undefined outputs) are skipped and counted"],
 }
 
